@@ -31,6 +31,33 @@ def rules():
     return _RULES
 
 
+def ext_comm_expected(items, peer_as4):
+    """RFC 4360 / RFC 5668 encoding of the API's 'route-target:<a>:<n>[,<a>:<n>...]' / 'route-origin:...' texts,
+    in request order.  None: contains a case this model does not fix."""
+    import socket
+    import struct
+    out = b""
+    for item in items:
+        key, value = item.split(":", 1)
+        sub = {"route-target": 2, "route-origin": 3}.get(key.strip().lower())
+        if sub is None:
+            return None
+        for v in value.strip().split(","):
+            adm, num = v.strip().split(":", 1)
+            num = int(num)
+            if "." in adm:
+                if num > 65535:
+                    return None
+                out += bytes([0x01, sub]) + socket.inet_aton(adm) + struct.pack("!H", num)
+            elif int(adm) <= 65535:
+                out += bytes([0x00, sub]) + struct.pack("!HI", int(adm), num)
+            else:
+                if not peer_as4 or num > 65535:
+                    return None
+                out += bytes([0x02, sub]) + struct.pack("!IH", int(adm), num)
+    return out
+
+
 def comm_to_int(c):
     if c.upper() in WELL_KNOWN:
         return WELL_KNOWN[c.upper()]
@@ -56,6 +83,7 @@ def snapshot(w):
 
 class RestCtx(FsmCtx):
     escape_is_violation = False
+    exceptions_end_run = False
     prop = "C16"
     soft = True
     regime_exit = False
@@ -233,6 +261,30 @@ class RestCtx(FsmCtx):
                 attr["7"] = [rng.pick([1, 65535, 65536]), "10.9.9.9"]
             if rng.chance(0.4):
                 attr["8"] = [rng.pick(["NO_EXPORT", "NO_ADVERTISE", "100:200", "65535:1", "1:65535", "0:0"]) for _ in range(rng.randrange(1, 3))]
+            if rng.chance(0.25):
+                # extended communities in the API's text form: route targets / origins with 2-octet AS numbers
+                # (incl. the boundary 65535), 4-octet AS numbers and IPv4 administrators
+                vals = [rng.pick(["65000:1", "65535:100", "1:4294967295", "0:0", "65535:0", "10.1.1.1:5", "192.0.2.255:65535",
+                                  "65536:7", "4200000000:65535"]) for _ in range(rng.randrange(1, 4))]
+                attr["16"] = ["%s:%s" % (rng.pick(["route-target", "route-target", "route-origin"]), ",".join(vals))]
+                if rng.chance(0.3):
+                    attr["16"].append("route-target:%s" % rng.pick(["64512:9", "65535:65535"]))
+                self.stats["gen:extended_communities_in_request"] += 1
+        if rng.chance(0.08):
+            # degenerate request shapes: routes without path attributes, empty attribute values, an MP_UNREACH
+            # that withdraws nothing (must be refused or sent faithfully - and counted accordingly)
+            shape = rng.pick(["nlri_only", "empty_attr", "empty_unreach", "empty_ext_comm", "withdraw_and_empty_attr"])
+            pfx = [rng.pick(base.PREFIX_POOL)]
+            self.stats["gen:degenerate_update_request"] += 1
+            if shape == "nlri_only":
+                return {"nlri": pfx}
+            if shape == "empty_attr":
+                return {"attr": {}, "nlri": pfx}
+            if shape == "empty_unreach":
+                return {"attr": {"15": {"afi_safi": [1, 133], "withdraw": []}}}
+            if shape == "empty_ext_comm":
+                return {"attr": {"1": 0, "2": [], "3": "10.0.0.1", "5": 100, "16": []}, "nlri": pfx}
+            return {"attr": {}, "withdraw": pfx}
         if rng.chance(0.08):
             # a multiprotocol payload: judged as opaque bytes against a direct codec call
             attr = {"1": 0, "2": [], "5": 100,
@@ -458,6 +510,14 @@ class RestCtx(FsmCtx):
             want["aggregator"] = (attr["7"][0], attr["7"][1])
         if "8" in attr:
             want["communities"] = [comm_to_int(c) for c in attr["8"]]
+        if "16" in attr:
+            exp16 = ext_comm_expected(attr["16"], ex["as4"])
+            if exp16 is None:
+                # a 4-octet AS administrator on a session without capability 65 (or a kind outside this model):
+                # the API may refuse or send; not judged
+                self.stats["ext_community_request_not_judged"] += 1
+                return
+            want.setdefault("other", []).append((16, 0xC0, exp16.hex()))
         got = dict(d["attrs"])
         if "as_path" in got:
             got["as_path"] = [(st, list(a)) for st, a in got["as_path"]]
